@@ -25,10 +25,10 @@ import lib
 PROP = 'C04'
 THEOREMS = [
     'C04_index_inv', 'C04_index_inv_reachable', 'C04_name_index_complete',
-    'C04_lookup_unique', 'C04_rejected_noop', 'C04_persistent',
-    'C04_deleted_unreachable', 'C04_chained_inv', 'C04_chained_base_frozen',
-    'C04_cmd_refint', 'C04_cmd_index_inv',
+    'C04_lookup_unique_global', 'C04_lookup_unique_name', 'C04_deleted_unreachable',
+    'C04_rejected_noop', 'C04_persistent', 'C04_chained_inv', 'C04_chained_base_frozen',
 ]
+REFUTED = ['C04_index_inv_without_wf_op_refuted', 'C04_raw_api_refint_refuted']
 IMPL = os.path.join(lib.VERIF, 'harness', 'impl', 'c04_impl.py')
 
 _DESC = None
@@ -532,12 +532,13 @@ def gen_cases(tier):
     cases = [dec(c, m) for c, m in corpus()]
     ncorpus = len(cases)
     if tier == 'quick':
-        cases += list(exhaustive_cases(2))
+        cases += list(exhaustive_cases(3))
         cases += [random_case(rnd, 14) for _ in range(9000)]
         cases += [random_case(rnd, 30) for _ in range(1000)]
         cases += [mismatch_case(rnd, 10) for _ in range(500)]
     else:
         cases += list(exhaustive_cases(3))
+        cases += list(exhaustive_cases(4, menu_limit=13))
         cases += [random_case(rnd, 14) for _ in range(120000)]
         cases += [random_case(rnd, 40) for _ in range(20000)]
         cases += [mismatch_case(rnd, 12) for _ in range(5000)]
@@ -564,37 +565,37 @@ def mon_tags(r):
     return [t.split('@')[0] for t in r.split(' !')[1:]]
 
 
-def shrink(case, pred, budget=400):
-    """greedy: drop ops, then drop fields of ops, while pred(case) stays true"""
+def candidates(case):
+    """one-step reductions: drop an op; drop a field of an add/update"""
     mode, base, ops = case
-    calls = 0
-    changed = True
-    while changed and calls < budget:
-        changed = False
-        for i in range(len(ops)):
-            cand = (mode, base, ops[:i] + ops[i + 1:])
-            calls += 1
-            if cand[2] and pred(cand):
-                ops = cand[2]
-                changed = True
-                break
-        if changed:
-            continue
-        for i, op in enumerate(ops):
-            if op[0] in ('A', 'U'):
-                fs = op[4] if op[0] == 'A' else op[3]
-                for j in range(len(fs)):
-                    nfs = fs[:j] + fs[j + 1:]
-                    nop = op[:4] + (nfs,) if op[0] == 'A' else op[:3] + (nfs,)
-                    cand = (mode, base, ops[:i] + [nop] + ops[i + 1:])
-                    calls += 1
-                    if pred(cand):
-                        ops = cand[2]
-                        changed = True
-                        break
-            if changed:
-                break
-    return (mode, base, ops)
+    out = []
+    for i in range(len(ops)):
+        if len(ops) > 1:
+            out.append((mode, base, ops[:i] + ops[i + 1:]))
+    for i, op in enumerate(ops):
+        if op[0] in ('A', 'U'):
+            fs = op[4] if op[0] == 'A' else op[3]
+            for j in range(len(fs)):
+                nfs = fs[:j] + fs[j + 1:]
+                nop = op[:4] + (nfs,) if op[0] == 'A' else op[:3] + (nfs,)
+                out.append((mode, base, ops[:i] + [nop] + ops[i + 1:]))
+    return out
+
+
+def shrink(case, pred_batch, rounds=60):
+    """greedy, batched: every round evaluates all one-step reductions in one run of the
+    implementation (pred_batch(list of cases) -> list of bool) and keeps the first that
+    still fails"""
+    for _ in range(rounds):
+        cands = candidates(case)
+        if not cands:
+            break
+        oks = pred_batch(cands)
+        nxt = next((c for c, ok in zip(cands, oks) if ok), None)
+        if nxt is None:
+            break
+        case = nxt
+    return case
 
 
 def op_kinds(case):
@@ -678,7 +679,16 @@ def coq_case(case):
 def run(tier):
     rep = lib.Report(PROP, tier, 'proof')
     thorough = tier == 'thorough'
-    pf = lib.proof_stage(rep, 'C04', THEOREMS, thorough=thorough)
+    pf = lib.proof_stage(rep, 'C04', THEOREMS, extra_targets=['theories/C04/Refuted.vo'], thorough=thorough)
+    # the ..._refuted theorems (computed witnesses, replayed from corpus/C04/refuted_*.json)
+    rok, rproved, rlog = lib.coq_props('C04', 'Refuted.v') if pf['ok'] else (False, {}, '')
+    for t in REFUTED:
+        if pf['ok'] and (not rok or rproved.get(t) != []):
+            pf['ok'] = False
+            pf['broken'].append(f'{t}: does not check / not closed')
+            pf['log'] += rlog[-2000:]
+    rep.coverage['refuted_theorems'] = {t: ('closed under the global context' if rproved.get(t) == [] else 'NOT CHECKED')
+                                        for t in REFUTED}
     exe, blog = lib.build_model('c04', 'ExtractC04.v', 'c04_main.ml', 'C04_ext')
 
     d = desc()
@@ -718,15 +728,19 @@ def run(tier):
     # ---- verdict
     known = lib.known_findings(PROP)
     reported = 0
-    for i in mon_fail:
+    seen_tags = set()
+    for i in sorted(mon_fail, key=lambda i: len(cases[i][2])):
         if reported >= 3:
             break
         tags = mon_tags(impl[i])
+        if tags[0] in seen_tags:
+            continue
+        seen_tags.add(tags[0])
         kf = next((k for k in known if k.get('site') in tags), None)
         if kf:
             rep.known_finding(kf['id'], kf.get('what', ''))
             continue
-        small = shrink(cases[i], lambda c: tags[0] in mon_tags(one_impl(c)))
+        small = shrink(cases[i], lambda cs: [tags[0] in mon_tags(r) for r in run_impl([enc(c) for c in cs])])
         rep.violation(f'monitor {tags} failed on the real FlatSchema/ChainedSchema',
                       {'case': enc(small), 'mode': small[0], 'original_case': lines[i],
                        'impl_result': one_impl(small, verbose=True),
@@ -752,7 +766,9 @@ def run(tier):
                           {'broken': 'extraction of theories/C04/Model.v'}, False)
         elif mism:
             i = mism[0]
-            small = shrink(cases[i], lambda c: strip(one_impl(c)) != lib.run_model(exe, [enc(c)])[0])
+            small = shrink(cases[i], lambda cs: [strip(a) != b for a, b in
+                                                 zip(run_impl([enc(c) for c in cs]),
+                                                     lib.run_model(exe, [enc(c) for c in cs]))])
             vl = enc(small)[0] + 'V' + enc(small)[1:]
             rep.violation('correspondence broken: model and implementation disagree, no monitor failed '
                           f'on {len(cases)} cases',
@@ -786,7 +802,7 @@ def run(tier):
         for cc in set(classes_in(c[2])):
             nm = d['classes'][cc]['name']
             classes_used[nm] = classes_used.get(nm, 0) + 1
-    nexh = len(list(exhaustive_cases(3 if thorough else 2)))
+    nexh = 24 ** 3 + (13 ** 4 if thorough else 0)
     rep.coverage.update({
         'evaluations': len(cases),
         'distinct_nontrivial': len(distinct),
@@ -801,7 +817,8 @@ def run(tier):
                 'only). non-trivial = >= 3 accepted ops and >= 1 rejected op and an accepted '
                 'delete/discard/unset/delist/set/update; distinct = distinct encoded case line',
         'exhaustive': False,
-        'exhaustive_subspaces': [f'all {nexh} sequences of {3 if thorough else 2} ops from the 24-op menu'],
+        'exhaustive_subspaces': ['all 13824 sequences of 3 ops from the 24-op menu']
+                                + (['all 28561 sequences of 4 ops from the first 13 menu ops'] if thorough else []),
         'samples': [lines[i] for i in (ncorpus, ncorpus + nexh + 1, len(lines) // 2, len(lines) - 600)
                     if 0 <= i < len(lines)],
         'traces_validated_against_impl': len(in_model) if model is not None else 0,
